@@ -499,6 +499,14 @@ def check_criteria(case):
             number('AVERAGEIF(%s,v_crita)' % names[1], r_mean(own), 'AVERAGEIF(range, criterion)')
         else:
             an_error('AVERAGEIF(%s,v_crita)' % names[1], 'AVERAGEIF(range, criterion)')
+    # the same cells grouped differently: the criteria cells as a flat list, the values as rows of a table (equal counts)
+    if n >= 2 and n % 2 == 0:
+        env2 = Env(vars={'v_cells': list(cells0), 'v_table': [list(values[:n // 2]), list(values[n // 2:])], 'v_crita': crit_text(c0)})
+        want = [values[i] for i in sel0]
+        r = env2.parse('AVERAGEIF(v_cells,v_crita,v_table)')
+        if want:
+            if r['error'] is not None or not close(r['result'], r_mean(want)):
+                raise Violation(d + 'AVERAGEIF(flat cells, criterion, the values as a 2-row table) -> %r, expected %r' % (r['error'] or r['result'], float(r_mean(want))), r['error'] or enc(r['result']), float(r_mean(want)))
 
 
 def crit_key(case):
